@@ -44,6 +44,9 @@ _RULE = (
     "xml:base on their root (hrefs then relative to it); assignments that differ only in a file no include mentions are executed once (pruned_equivalent). "
     "quick: n=2 full templates rb=3 (3 885 assignments); n=3 reduced templates {root only, document element, first child, nested, in-fallback} (4 913). "
     "thorough: + n=3 all templates except nested+following-sibling (68 921), n=3 reduced rb=3 (31 433), n=4 reduced (194 481). "
+    "(deep) five files in one directory: a includes p; p includes q, or q and then any file; q has two includes of any of the five files; r and s are leaves or "
+    "include any file (5 400 assignments, no fallbacks): the smallest shape in which an include completes at inclusion depth 3 and a later sibling closes a loop "
+    "through a middle entry of the inclusion history. "
     "(opts) main document = one include at each of 5 positions x an 87-entry option catalogue (target b / c / a itself / missing / text files / no href; parse absent, xml, text, bogus; "
     "encoding absent, ISO-8859-1, UTF-16; xpointer; xml:base on the xi:include; fallback none, empty, text, elements+text, nested include (4 targets, with/without inner fallback), "
     "two fallbacks, xi:include child, fallback outside an include) x 9 forms of b.xml (plain; absolute / relative xml:base on the root; includes c; includes a (loop); "
@@ -83,6 +86,7 @@ SPEC = dict(
                _x("opts-one-and-two-includes", "--space", "opts", "--pairs", 1),
                _x("graph-2-files", "--space", "graph", "--files", 2, "--tset", "full", "--rb", 3),
                _x("graph-3-files-reduced", "--space", "graph", "--files", 3, "--tset", "small", "--rb", 1),
+               _x("deep-5-files", "--space", "deep"),
                _x("leak-check", "--space", "leak")],
         thorough=[_x("defects-strict", "--space", "defects"),
                   _x("opts-one-and-two-includes", "--space", "opts", "--pairs", 2),
@@ -90,6 +94,7 @@ SPEC = dict(
                   _x("graph-3-files", "--space", "graph", "--files", 3, "--tset", "mid", "--rb", 1),
                   _x("graph-3-files-reduced-xmlbase", "--space", "graph", "--files", 3, "--tset", "small", "--rb", 3),
                   _x("graph-4-files-reduced", "--space", "graph", "--files", 4, "--tset", "small", "--rb", 1),
+                  _x("deep-5-files", "--space", "deep"),
                   _x("leak-check", "--space", "leak")],
     ),
     manifest=dict(
